@@ -134,6 +134,12 @@ Proof.
   exact (family_merge id_eqb (unique_id H) cur_tables uid_cleared_txin_fields (leaves t) ni no x A1 A2 A3 HU PF UX XX t t' (incl_refl _) P).
 Qed.
 
+(* what `pset_agree` (the family hypothesis) constrains at an input: the outpoint, the required lock times and the issuance — NOT the sequence, the final
+   script sig / witness, signatures, scripts, derivations or proofs, so descendants that independently added any of those are members of a family.
+   (Pinned: if unique_id() stops resetting the sequence or the script_sig, this list grows and the Example fails.) *)
+Example C14_family_id_fields : uid_input_fields uid_cleared_txin_fields =
+  [F_prev_txid; F_prev_index; F_req_time; F_req_height; F_iss_nonce; F_iss_entropy; F_iss_amount; F_iss_comm; F_iss_keys; F_iss_keys_comm].
+Proof. vm_compute. reflexivity. Qed.
 (* non-vacuity: three descendants of one ancestor (Proofs/PsetFamily.v: ex_a added a partial signature, ex_b another one, ex_c a key
    derivation; `ex_pfam` shows they form a family) *)
 (* (a.b).c, a.(b.c) and (c.a).b all succeed and give the same PSET, for every hash and every reflexive id comparison *)
